@@ -76,7 +76,8 @@ def trace_env(ledger=True, trees=False, locks=False):
     return {"EXPLAIN": "0", "CHECK_LEDGER": "1" if ledger else "0", "CHECK_TREES": "1" if trees else "0",
             "CHECK_LOCKS": "1" if locks else "0",
             "KF_STALE": "1" if "C06-stale-frontier-after-rewind" in open_ids else "0",
-            "KF_RETAIN": "1" if "C06-retained-boundary-lost" in open_ids else "0"}
+            "KF_RETAIN": "1" if "C06-retained-boundary-lost" in open_ids else "0",
+            "KF_STALEROOT": "1" if "C06-stale-subtree-root-after-reorg" in open_ids else "0"}
 
 
 def validate(ctx, d, path, what):
